@@ -384,6 +384,51 @@ func stepIndex(c *core.Ctx, fn *core.Fn, name string, as *ast.AssignStmt, index 
 		c.Undecidedf("R2.step", name+"/index", as.Pos(), "unrecognised table index %s", c.Src(index))
 		return nil
 	}
+	// an operand named first in the same block (`high := byte(crc >> 8)` right before the
+	// step, the accumulator not written in between) stands for its definition
+	named := func(e ast.Expr) ast.Expr {
+		o := objOf(info, strip(info, e))
+		if o == nil || o == crcObj {
+			return e
+		}
+		rhs, other := defsOf(info, fn.Decl.Body, o)
+		if len(rhs) != 1 || other != 0 || rhs[0] == nil {
+			return e
+		}
+		for _, n := range core.PathTo(fn.Decl.Body, as) {
+			blk, isBlk := n.(*ast.BlockStmt)
+			if !isBlk {
+				continue
+			}
+			di, si := -1, -1
+			for i, st := range blk.List {
+				if st == ast.Stmt(as) {
+					si = i
+				}
+				ast.Inspect(st, func(m ast.Node) bool {
+					if m == ast.Node(rhs[0]) && (st != ast.Stmt(as)) {
+						if _, direct := st.(*ast.AssignStmt); direct {
+							di = i
+						} else if _, decl := st.(*ast.DeclStmt); decl {
+							di = i
+						}
+					}
+					return true
+				})
+			}
+			if di < 0 || si < 0 || di >= si {
+				continue
+			}
+			for _, st := range blk.List[di+1 : si] {
+				if r, oth := defsOf(info, st, crcObj); len(r) > 0 || oth > 0 {
+					return e
+				}
+			}
+			return rhs[0]
+		}
+		return e
+	}
+	be = &ast.BinaryExpr{X: named(be.X), OpPos: be.OpPos, Op: be.Op, Y: named(be.Y)}
 	var hi, b ast.Expr
 	if x, _, _, ok := shiftOf(info, be.X); ok && objOf(info, x) == crcObj {
 		hi, b = be.X, be.Y
